@@ -3,7 +3,7 @@
     * [oset] / [emgr]          spyne/util/oset.py, spyne/evmgr.py
     * [base_event_handlers]    spyne/service.py ServiceBaseMeta.__get_base_event_handlers
     * [world], [regop]         registration programs: class statements and add_listener calls
-    * [ctx_fire]               spyne/context.py MethodContext.fire_event
+    * [fire_world]             spyne/context.py MethodContext.fire_event (manager order generated)
     * [stmt], [exec]           a small statement language in which the request pipeline
                                (server/_base.py, application.py, server/wsgi.py, context.py) is
                                written; the pipeline programs themselves are GENERATED from the
@@ -189,20 +189,29 @@ Definition target_id (t : target) : Z :=
 Definition target_eqb a b := target_id a =? target_id b.
 
 (** MethodContext.fire_event (context.py:128):
-      self.app.event_manager.fire_event(event, self)
+      self.app.event_manager.fire_event(event, self)                                  [PApp]
       desc = self.descriptor
-      if desc is not None: for evmgr in desc.event_managers: evmgr.fire_event(event, self) *)
-Definition ctx_managers (w : world) (dms : list emgr) (has_desc : bool) : list emgr :=
-  w_app w :: (if has_desc then dms else []).
-Definition fire_world (w : world) (dms : list emgr) (b : beh)
+      if desc is not None: for evmgr in desc.event_managers: evmgr.fire_event(event, self)   [PDesc]
+    the list of parts, in source order, is GENERATED (Gen.Pipeline.g_ctx_fire_parts) *)
+Inductive fpart := PApp | PDesc.
+Definition part_managers (w : world) (dms : list emgr) (has_desc : bool) (p : fpart) : list emgr :=
+  match p with PApp => [w_app w] | PDesc => if has_desc then dms else [] end.
+Definition ctx_managers (parts : list fpart) (w : world) (dms : list emgr) (has_desc : bool) : list emgr :=
+  flat_map (part_managers w dms has_desc) parts.
+Definition fire_world (parts : list fpart) (w : world) (dms : list emgr) (b : beh)
            (t : target) (e : ev) (has_desc : bool) : list lid * option exk :=
   match t with
-  | TCtx => fire_mgrs b (ctx_managers w dms has_desc) e
+  | TCtx => fire_mgrs b (ctx_managers parts w dms has_desc) e
   | TApp => em_fire b (w_app w) e
   | TTpt => em_fire b (w_tpt w) e
   | TPin => em_fire b (w_pin w) e
   | TPout => em_fire b (w_pout w) e
   end.
+
+(** out protocols whose serialize() skeleton is read from the source (Gen.Pipeline.g_proto_flags) *)
+Inductive proto := PXml | PSoap11 | PHier | PMsgpackRpc.
+Definition proto_id (p : proto) : Z := match p with PXml => 0 | PSoap11 => 1 | PHier => 2 | PMsgpackRpc => 3 end.
+Definition proto_eqb a b := proto_id a =? proto_id b.
 
 (* ------------------------------------------------------------------ the statement language *)
 (** tracked attributes of the method context; every other attribute is irrelevant to which
@@ -377,10 +386,6 @@ Definition listener_trace (t : list fitem) : list call := flat_map calls_of t.
 (* ------------------------------------------------------------------ library steps (hand-written) *)
 Fixpoint seq (l : list stmt) : stmt :=
   match l with [] => Skip | [a] => a | a :: r => Seq a (seq r) end.
-
-(** MethodContext.__init__ ends with self.fire_event("method_context_created"); the descriptor
-    is still None there, so only the application's manager is reached *)
-Definition lib_ctx_init : stmt := Fire Ecreated.
 
 (** in_protocol.create_in_document / decompose_incoming_envelope / generate_method_contexts
     (the latter sets ctx.descriptor on the copies it returns; one primary context, no aux) *)
